@@ -17,6 +17,7 @@ static int next_v = 1, n_present_completed;
 static unsigned long epoch;
 static int inflight;
 static int taken_total, pushed_total;
+static int tso_mode; /* a push that has returned may still sit in the pusher's store buffer: no EMPTY oracle */
 
 static NS int g_push_begin(void) {
   int v = next_v++;
@@ -52,7 +53,7 @@ static NS void g_take_end(snap_t s, void* r, const char* how) {
   if (r == WSD_ABORT) {
     sim_probe("abort", 1);
   } else if (r == WSD_EMPTY) {
-    if (s.completed_present > 0 && s.others_inflight == 0 && epoch == s.epoch)
+    if (!tso_mode && s.completed_present > 0 && s.others_inflight == 0 && epoch == s.epoch)
       sim_violation("C02-empty-with-entries", "%s reported EMPTY although %d entries were queued and no other operation overlapped the call", how, s.completed_present);
   } else {
     long v = (long)r;
@@ -122,6 +123,10 @@ void h_run(void) {
   }
   sim_describe("prefill=%d owner_ops=%d (pushes %d, bulk pushes of 256: %d) thieves=%d steals=%d preempt=1/%d", prefill, owner_n, pushes, bulks, nthief, steals, c.preempt_inv);
   sim_nontrivial();
+  int tso = wl_pct(40);
+  tso_mode = tso;
+  if (tso) sim_tso_enable(); /* atomic stores weaker than seq_cst may linger in a store buffer (x86-TSO) */
+  sim_probe("tso_runs", tso);
   dq = wsd_work_stealing_deque_create();
   sim_preempt_off();
   for (int i = 0; i < prefill; i++) {
